@@ -1,11 +1,11 @@
 CONSTANTS
-  Model = "univ"
-  MaxSteps = 3
+  Model = "geo"
+  MaxSteps = 4
   Hist = TRUE
-  AllowDie = FALSE
+  AllowDie = TRUE
   TransOnlyAsserted = FALSE
   TransOutOnly = FALSE
   NoInverseOfInferred = FALSE
   DirectSuperOnly = FALSE
 SPECIFICATION Spec
-CONSTRAINT Emit
+CONSTRAINT EmitDie
